@@ -78,7 +78,12 @@ def main():
                 objs[op["i"]][0].__code__ = codes[op["v"]]
             elif op["op"] == "call":
                 before = os.path.getsize(log) if os.path.exists(log) else 0
-                rec["value"] = objs[op["i"]][1][op.get("s", 1)](op["k"])
+                w = objs[op["i"]][1][op.get("s", 1)]
+                if op.get("copy"):
+                    # the wrapper travels (copy / pickle, as when it is sent to workers): the copy must behave like the original
+                    import copy
+                    w = copy.copy(w)
+                rec["value"] = w(op["k"])
                 after = os.path.getsize(log) if os.path.exists(log) else 0
                 rec["executed"] = after > before
             elif op["op"] == "force":
